@@ -37,7 +37,7 @@ def run(ctx, replay):
     cases += cases_from(ctx, 120 if not thorough else 3000, "Sim_DnssecPairs.cfg")
     # corners of the model's case product that every run replays, whatever the seed draws: the attacks that
     # need a whole response to be rebuilt rather than one attribute to be flipped
-    none = {"rootref": "none", "referral": "none", "dnskey": "none", "answer": "none"}
+    none = {"rootkey": "none", "rootref": "none", "referral": "none", "dnskey": "none", "answer": "none"}
     for zone in ("signed", "nsec3", "signed-same"):
         for qk in ("a", "cname", "nx"):
             for fl in ({"do": True, "ad": False, "cd": False}, {"do": False, "ad": False, "cd": False}):
@@ -57,6 +57,23 @@ def run(ctx, replay):
                               "exp": {"rcode": "servfail", "ad": False}})
             cases.append({"zone": zone, "qk": "whost", "flags": fl, "tamper": dict(none), "anchor": True,
                           "exp": {"rcode": "noerror", "ad": True}})
+    # the root's own key set without its signatures; a name the root itself denies (honest, unsigned, bare); denials
+    # with nothing in them from the target zone
+    for fl in ({"do": True, "ad": False, "cd": False}, {"do": False, "ad": False, "cd": False}):
+        for zone in ("signed", "insecure"):
+            for qk in ("a", "nx", "rootnx"):
+                cases.append({"zone": zone, "qk": qk, "flags": fl, "tamper": dict(none, rootkey="strip"), "anchor": True,
+                              "exp": {"rcode": "servfail", "ad": False}})
+            cases.append({"zone": zone, "qk": "rootnx", "flags": fl, "tamper": dict(none), "anchor": True,
+                          "exp": {"rcode": "nxdomain", "ad": fl["do"]}})
+            for k in ("strip", "barenx", "bareempty", "dropproof"):
+                cases.append({"zone": zone, "qk": "rootnx", "flags": fl, "tamper": dict(none, answer=k), "anchor": True,
+                              "exp": {"rcode": "servfail", "ad": False}})
+        for zone in ("signed", "nsec3", "signed-same"):
+            for qk in ("a", "nx", "nodata"):
+                for k in ("barenx", "bareempty"):
+                    cases.append({"zone": zone, "qk": qk, "flags": fl, "tamper": dict(none, answer=k), "anchor": True,
+                                  "exp": {"rcode": "servfail", "ad": False}})
     seen = set()
     cases = [c for c in cases if not (repr(c) in seen or seen.add(repr(c)))]
     for c in cases:
